@@ -759,6 +759,23 @@ class Sim:
                 for x, p_ in zip(xs, o):
                     mono = mono * x**p_
                 expr = expr + mono * M
+            if world.get("fdiff_fn"):
+                # the caller's Hamiltonian contains a function of the caller's own (a sympy Function with its own derivative
+                # rule): user code that runs whenever the library differentiates a term.  F = exp - 1 written through fdiff;
+                # its Taylor polynomial is subtracted again, so that the coefficients of the expansion stay inp.full
+                class Fsim(sympy.Function):
+                    @classmethod
+                    def eval(cls, arg):
+                        if arg == 0:
+                            return sympy.Integer(0)
+
+                    def fdiff(self, argindex=1):
+                        env.tick("H", ("fdiff",))
+                        return Fsim(self.args[0]) + 1
+
+                poly = sum(xs[0] ** k / sympy.factorial(k) for k in range(1, 8))
+                K = inp.full[tuple(int(k == 0) for k in range(inp.npert))]
+                expr = expr + (Fsim(xs[0]) - poly) * K
             self.H = expr
             self.kw["symbols"] = list(xs)
             self.h_is_series = False
@@ -931,7 +948,9 @@ class Sim:
                     okw = {k: v for k, v in self.kw.items() if k in ("subspace_indices", "subspace_eigenvectors", "symbols")}
                     if self.w.get("op_name"):
                         okw["name"] = "H_caller"
-                    Hb = operator_to_BlockSeries(self.H, hermitian=bool(spec["herm"]), **okw)
+                    if spec["herm"] or self.w["vseed"] % 2:
+                        okw["hermitian"] = bool(spec["herm"])  # otherwise the documented default (not Hermitian) is relied upon
+                    Hb = operator_to_BlockSeries(self.H, **okw)
                 derived["d1"] = cauchy_dot_product(Ui, Hb, U, operator=env.mm)
         self.comps[c] = {"out": out, "derived": derived}
 
@@ -1856,6 +1875,8 @@ class GraphProp:
             extra["nested_lazy"] = True
         if fmt in ("scalar_idx", "scalar_vecs") and r.random() < 0.5:
             extra["tmp_args"] = True
+        if fmt == "sympy_expr" and r.random() < 0.5:
+            extra["fdiff_fn"] = True
         if any(sp.get("solver") == "custom" for sp in comps) and r.random() < 0.5:
             extra["solver_sig"] = r.choice(["varargs", "varargs", "callable", "partial"])
         if ncomp >= 2 and r.random() < profile.get("p_chain", 0.2) and fmt != "scalar_vecs" or (ncomp >= 2 and profile.get("p_chain", 0.2) >= 1):
